@@ -544,14 +544,6 @@ __bizda_to_ymd(dt_bizda_t d)
 #endif	/* HAVE_ANON_STRUCTS_INIT */
 }
 
-static dt_ywd_t
-__bizda_to_ywd(dt_bizda_t d, dt_bizda_param_t p)
-{
-	unsigned int yd = __bizda_get_yday(d, p);
-
-	return __make_ywd_ybd(d.y, yd);
-}
-
 static dt_ymcw_t
 __bizda_to_ymcw(dt_bizda_t d, dt_bizda_param_t UNUSED(p))
 {
